@@ -20,7 +20,7 @@ func init() {
 		Rule: "RateLimitedAttester.VerifyRequest on honest requests (made by pat-go's client and by the harness's own signer), every single-bit flip of every field of one honest request per client (request key, name key id, ciphertext, signature, blind, client key: exhaustive; every fourth flip also on a request object decoded from the wire and marshalled before the tampering, so a stale encoding cache cannot stand in for the fields), signatures by unrelated keys, signatures of other requests, (r, N-s), r or s in {0, N}, wrong/shifted blinds, leading-zero blinds, wrong or malformed client and request keys. " +
 			"Oracle: accept iff crypto/ecdsa.Verify(request key, SHA-384(type||request_key||name_key_id||len16||ciphertext), r, s) and request_key == compress(hash_to_field-blind(client key, blind, 0x0003||\"ClientBlind\")) computed by the reference; on reject: non-nil error, zero Put calls and every cached state snapshot unchanged; on accept: at most one Put, for this client only. " +
 			"distinct_nontrivial = distinct (case class, field, bit) keys",
-		Floors:      []string{"accept_agree", "reject_agree", "reject_bad_signature", "reject_key_mismatch", "reject_malformed_key", "bitflips", "tampered_after_marshal", "state_unchanged_on_reject", "state_registered_on_accept"},
+		Floors:      []string{"accept_agree", "reject_agree", "reject_bad_signature", "reject_key_mismatch", "reject_malformed_key", "bitflips", "tampered_after_marshal", "tampered_after_original_accepted", "state_unchanged_on_reject", "state_registered_on_accept"},
 		Assumptions: []string{"request structs have the shapes the wire decoder produces (49/32/1..65535/96 bytes)", "crypto/ecdsa and crypto/elliptic of the Go standard library are the reference"},
 		Run:         runC06,
 	})
@@ -31,6 +31,9 @@ type c06Case struct {
 	blind     []byte
 	clientKey []byte
 	class     string
+	// pre: an honest request the same attester has accepted just before (a long-lived attester that has
+	// already seen the untampered original)
+	pre *c06Case
 }
 
 // c06AcceptRef is the independent decision.
@@ -94,6 +97,13 @@ func (w *c06World) call(cs *c06Case) {
 	att := type3.NewRateLimitedAttester(cache)
 	// two known clients with bindings in place (registered through honest calls)
 	w.preRegister(att, cache)
+	if cs.pre != nil {
+		if err := att.VerifyRequest(cs.pre.req, cs.pre.blind, cs.pre.clientKey, []byte("anon")); err != nil {
+			c.Violation("VerifyRequest:rejected-authentic:pre-accepted-original", "the attester rejected the honest original: "+err.Error(), nil)
+			return
+		}
+		cache.puts = nil
+	}
 	before := snapshotAll(cache)
 	putsBefore := len(cache.puts)
 	keysBefore := len(cache.m)
@@ -277,6 +287,14 @@ func runC06(c *core.Ctx) {
 					(*f.get(cs))[bit/8] ^= 1 << uint(bit%8)
 					w.call(cs)
 					c.Class("bitflips")
+					if bit%4 == 2 {
+						// the same tampering presented to an attester that has just accepted the untampered original
+						cs2 := h.mk(fmt.Sprintf("bitflip:%s#%d:after-original-accepted", f.name, bit))
+						(*f.get(cs2))[bit/8] ^= 1 << uint(bit%8)
+						cs2.pre = h.mk("original")
+						w.call(cs2)
+						c.Class("tampered_after_original_accepted")
+					}
 					if bit%4 == 1 {
 						// the same tampering on an object that was decoded from the wire and has
 						// already been marshalled once (its encoding cache is populated with the honest bytes)
